@@ -642,41 +642,23 @@ func (m *collection) get(key []byte, readOptions ReadOptions) ([]byte, error) {
 
 	m.m.Unlock()
 
-	var val []byte
-	var err error
-
-	// Avoid going to the lower-level snapshot for the
-	// stackDirtyTop/Mid/Base/Clean Get()s since their lower level
-	// snapshots may be modified concurrently by
-	// collection_merger/persister.
-	readOptionsSLL := readOptions
-	readOptionsSLL.SkipLowerLevel = true
-
-	// Look for the key-value in the collection's segment stacks
-	// starting with the latest (stackDirtyTop), followed by
-	// stackDirtyMid, stackDirtyBase, stackClean, and if still not
-	// found look for it in the lowerLevelSnapshot.
-	if stackDirtyTop != nil {
-		val, err = stackDirtyTop.Get(key, readOptionsSLL)
+	// Look the key up in one stack made of all the sections, oldest
+	// (stackClean) to newest (stackDirtyTop), chained to the lower
+	// level snapshot that was captured under the same lock.  Looking
+	// the sections up one at a time would let a deletion in a newer
+	// section fall through to an older section's value, and would
+	// fold merge operands of a newer section without the older ones.
+	ss := &segmentStack{options: m.options, lowerLevelSnapshot: lowerLevelSnapshot}
+	for _, section := range []*segmentStack{
+		stackClean, stackDirtyBase, stackDirtyMid, stackDirtyTop} {
+		if section != nil {
+			ss.a = append(ss.a, section.a...)
+		}
 	}
 
-	if val == nil && err == nil && stackDirtyMid != nil {
-		val, err = stackDirtyMid.Get(key, readOptionsSLL)
-	}
-
-	if val == nil && err == nil && stackDirtyBase != nil {
-		val, err = stackDirtyBase.Get(key, readOptionsSLL)
-	}
-
-	if val == nil && err == nil && stackClean != nil {
-		val, err = stackClean.Get(key, readOptionsSLL)
-	}
+	val, err := ss.Get(key, readOptions)
 
 	if lowerLevelSnapshot != nil {
-		if val == nil && err == nil {
-			val, err = lowerLevelSnapshot.Get(key, readOptions)
-		}
-
 		lowerLevelSnapshot.decRef()
 	}
 
